@@ -207,12 +207,12 @@ pub fn run(a: &Args) {
         }
         for if0 in [false, true] {
             for seed in [0u64, 0xdead_beef_0123_4567] {
-                program_case(&mut r, t, if0, seed);
+                guarded(&mut r, "C17|without_interrupts|unexpected-panic", || format!("prog {} {} {:#x}", show(t), if0 as u8, seed), |r| program_case(r, t, if0, seed));
             }
         }
     }
     if a.shard == 0 {
-        simple_ops(&mut r);
+        guarded(&mut r, "C17|enable/disable/are_enabled|unexpected-panic", || "flagops".into(), |r| simple_ops(r));
     }
     r.states = r.evals;
     r.exhaustive = true;
